@@ -281,7 +281,7 @@ def gen_sm_doc(r: random.Random, hi: int = 4, pipeline: dict | None = None) -> d
 
 def gen_sm_fmt(r: random.Random, knobs: dict) -> dict:
     return dict(newline=knobs.get("stored_newline", "lf"), lead_comment=r.choice([False, False, True, "sep"]), bpms_multiline=r.random() < 0.4,
-                row_comments=r.choice([False, False, False, True, "sep"]), comma_style=r.choice(["own", "own", "own", "after_row", "before_row"]),
+                row_comments=r.choice([False, False, False, True, "sep", "glued"]), comma_style=r.choice(["own", "own", "own", "after_row", "before_row"]),
                 blank_after_header=r.random() < 0.8, chart_comment=r.random() < 0.8, indent=r.random() < 0.8,
                 measure_comments=r.random() < 0.5, blank_rows=r.random() < 0.3, space_blank=r.random() < 0.3,
                 row_trailing_space=r.random() < 0.15)
